@@ -4,6 +4,7 @@
 //
 //	bufferd graph  <script.json>                 every path of the TLC state graph (spec/buffer/MCBuffer)
 //	bufferd random <out.ndjson> <seed> <segments> <ops>
+//	bufferd ops    <steps.json> <out.ndjson>     one explicit operation sequence (replay files), logged like random
 //
 // Content bytes are pairwise distinct inside one run of operations (1..250;
 // 0 = never content), so a byte value identifies a byte: that is what lets
@@ -59,10 +60,19 @@ type obs struct {
 	Ext  []int  `json:"ext"`  // bytes that re-slicing each view to its capacity adds
 	lens []int
 	caps []int
+	// panicked: reading the object through the API panicked
+	panicked string
 }
 
-func observe(o *object) obs {
-	x := obs{Kind: o.kind, Ext: []int{}, lens: []int{}, caps: []int{}}
+// observe reads one object through the exported API. A panic while reading (a
+// corrupted object, e.g. a negative size reaching make) is reported, not fatal.
+func observe(o *object) (x obs) {
+	defer func() {
+		if r := recover(); r != nil {
+			x = obs{Kind: o.kind, B: []int{}, BV: []int{}, Ext: []int{}, panicked: fmt.Sprint(r)}
+		}
+	}()
+	x = obs{Kind: o.kind, Ext: []int{}, lens: []int{}, caps: []int{}}
 	var views []buffer.View
 	switch o.kind {
 	case "vv":
@@ -279,6 +289,10 @@ func compare(w *world, st map[string]interface{}, pi, si int, res *vh.Result) bo
 		m := vh.Map(objs[i])
 		x := observe(o)
 		tag := fmt.Sprintf("object %d (%s): ", i+1, o.kind)
+		if x.panicked != "" {
+			mm("property", tag+"panic while reading the object (ToView/Views/Size)", "a byte string", x.panicked)
+			continue
+		}
 		wantB := vh.List(a["b"])
 		if !eqInts(x.B, wantB) {
 			mm("property", tag+"flattened bytes", wantB, x.B)
@@ -297,6 +311,24 @@ func compare(w *world, st map[string]interface{}, pi, si int, res *vh.Result) bo
 			if excluded[b] {
 				mm("property", tag+"byte cut off by CapLength reachable again by re-slicing a view to its capacity", "unreachable", b)
 				break
+			}
+		}
+		// observation outside the property as scoped (it speaks of a capped View): the []View
+		// list of a capped VectorisedView re-sliced to ITS capacity still shows dropped chunks
+		if o.kind == "vv" && res.Extra != nil {
+			vs := o.vv.Views()
+		spare:
+			for _, v := range vs[len(vs):cap(vs)] {
+				for _, b := range v {
+					if excluded[int(b)] {
+						n, _ := res.Extra["list_reextend_count"].(int)
+						res.Extra["list_reextend_count"] = n + 1
+						if n == 0 {
+							res.Extra["list_reextend_first"] = map[string]interface{}{"path": pi, "step": si, "object": i + 1, "byte": int(b)}
+						}
+						break spare
+					}
+				}
 			}
 		}
 		// implementation shape
@@ -333,6 +365,7 @@ func graph(path string) {
 	vh.LoadJSON(path, &g)
 	res := vh.Result{Mismatches: []vh.Mismatch{}, Extra: map[string]interface{}{}}
 	acts := map[string]int{}
+	drifts := 0
 	for pi, p := range g.Paths {
 		w := newWorld(g.ScratchCap)
 		prev := g.Init
@@ -392,11 +425,25 @@ func graph(path string) {
 			}
 		}
 		res.Paths++
-		if len(res.Mismatches) > 40 {
+		// keep the report small: at most 20 drift records; stop after 20 property mismatches
+		keep := []vh.Mismatch{}
+		nd, np := 0, 0
+		for _, m := range res.Mismatches {
+			if m.Kind == "property" {
+				np++
+			} else if nd++; nd > 20 {
+				continue
+			}
+			keep = append(keep, m)
+		}
+		drifts += len(res.Mismatches) - len(keep)
+		res.Mismatches = keep
+		if np >= 20 {
 			break
 		}
 	}
 	res.Extra["actions"] = acts
+	res.Extra["drift_records_dropped"] = drifts
 	vh.Emit(res)
 }
 
@@ -414,6 +461,9 @@ func (w *world) snapshot() []obs {
 }
 
 func pickCount(r *rand.Rand, size int, first int, lo int) int {
+	if size < 0 { // only a corrupted object says so; keep the generator alive
+		size = 0
+	}
 	var n int
 	switch r.Intn(10) {
 	case 0:
@@ -441,38 +491,113 @@ func pickCount(r *rand.Rand, size int, first int, lo int) int {
 	return n
 }
 
+// logEvent writes one operation and what every live object looks like after it.
+// It returns false when the call (or reading the objects afterwards) panicked: the
+// sequence ends there, with a `panic` event that no action of the trace spec matches.
+func logEvent(tr *vh.Trace, w *world, op string, o, n int, slack []int, oc outcome, chunks [][]int) bool {
+	if oc.panicked != "" {
+		tr.Log(map[string]interface{}{"ev": "panic", "op": op, "o": o, "n": n, "msg": oc.panicked})
+		return false
+	}
+	snap := w.snapshot()
+	for i, x := range snap {
+		if x.panicked != "" {
+			tr.Log(map[string]interface{}{"ev": "panic", "op": op, "o": o, "n": n, "msg": fmt.Sprintf("reading object %d after the call: %s", i+1, x.panicked)})
+			return false
+		}
+	}
+	ev := map[string]interface{}{"ev": op, "o": o, "n": n, "objs": snap}
+	switch op {
+	case "NewVV":
+		ev["chunks"] = chunks
+		ev["slack"] = slack
+	case "NewView":
+		ev["data"] = oc.data
+	case "VRemoveFirst":
+		ev["k"] = oc.k
+	case "VFirst":
+		ev["f"] = oc.f
+	case "Prepend":
+		ev["isnil"] = oc.isnil
+		ev["wlen"] = oc.wlen
+		ev["wcap"] = oc.wcap
+		if oc.data == nil {
+			oc.data = []int{}
+		}
+		ev["data"] = oc.data
+	}
+	tr.Log(ev)
+	return true
+}
+
+// newVV builds a VectorisedView over chunks of the given lengths (fresh bytes) and logs it.
+func (w *world) newVV(tr *vh.Trace, lens, slack []int) outcome {
+	first := w.nextb
+	oc := w.exec("NewVV", 0, 0, lens, slack)
+	chunks := make([][]int, len(lens))
+	for i, l := range lens {
+		chunks[i] = make([]int, l)
+		for j := range chunks[i] {
+			first++
+			chunks[i][j] = first
+		}
+	}
+	if slack == nil {
+		slack = []int{}
+	}
+	if !logEvent(tr, w, "NewVV", 0, 0, slack, oc, chunks) && oc.panicked == "" {
+		oc.panicked = "reading the objects"
+	}
+	return oc
+}
+
+// ops: one explicit operation sequence (the `steps` of a replay file: [op, args...] with the
+// arguments of the model actions), logged like a random sequence for TLC.
+type opsScript struct {
+	ScratchCap int             `json:"scratch_cap"`
+	Steps      [][]interface{} `json:"steps"`
+}
+
+func ops(in, out string) {
+	var sc opsScript
+	vh.LoadJSON(in, &sc)
+	tr := vh.NewTrace(out)
+	w := newWorld(sc.ScratchCap)
+	tr.Log(map[string]interface{}{"ev": "reset", "seg": 0})
+	for _, st := range sc.Steps {
+		op := vh.Str(st[0])
+		ok := true
+		switch op {
+		case "NewVV":
+			ok = w.newVV(tr, vh.Ints(st[1]), nil).panicked == ""
+		case "NewPrep", "NewView":
+			n := vh.Int(st[1])
+			ok = logEvent(tr, w, op, 0, n, nil, w.exec(op, 0, n, nil, nil), nil)
+		default:
+			o, n := vh.Int(st[1]), 0
+			if len(st) > 2 {
+				n = vh.Int(st[2])
+			}
+			ok = logEvent(tr, w, op, o, n, nil, w.exec(op, o, n, nil, nil), nil)
+		}
+		if !ok {
+			break
+		}
+	}
+	tr.Close()
+}
+
 func random(out string, seed int64, segments, nops int) {
 	tr := vh.NewTrace(out)
 	for s := 0; s < segments; s++ {
 		r := rand.New(rand.NewSource(seed*1000003 + int64(s)))
 		w := newWorld(1 + r.Intn(8))
 		tr.Log(map[string]interface{}{"ev": "reset", "seg": s, "seed": seed})
+		dead := false // a call panicked: the sequence ends
 		logop := func(op string, o, n int, lens, slack []int, oc outcome, chunks [][]int) {
-			if oc.panicked != "" {
-				tr.Log(map[string]interface{}{"ev": "panic", "op": op, "o": o, "n": n, "msg": oc.panicked})
-				return
+			if !dead && !logEvent(tr, w, op, o, n, slack, oc, chunks) {
+				dead = true
 			}
-			ev := map[string]interface{}{"ev": op, "o": o, "n": n, "objs": w.snapshot()}
-			switch op {
-			case "NewVV":
-				ev["chunks"] = chunks
-				ev["slack"] = slack
-			case "NewView":
-				ev["data"] = oc.data
-			case "VRemoveFirst":
-				ev["k"] = oc.k
-			case "VFirst":
-				ev["f"] = oc.f
-			case "Prepend":
-				ev["isnil"] = oc.isnil
-				ev["wlen"] = oc.wlen
-				ev["wcap"] = oc.wcap
-				if oc.data == nil {
-					oc.data = []int{}
-				}
-				ev["data"] = oc.data
-			}
-			tr.Log(ev)
 		}
 		newVV := func() bool {
 			budget := maxByte - w.nextb - 40
@@ -502,17 +627,10 @@ func random(out string, seed int64, segments, nops int) {
 					slack[i] = 1 + r.Intn(3)
 				}
 			}
-			first := w.nextb
-			oc := w.exec("NewVV", 0, 0, lens, slack)
-			chunks := make([][]int, k)
-			for i, l := range lens {
-				chunks[i] = make([]int, l)
-				for j := range chunks[i] {
-					first++
-					chunks[i][j] = first
-				}
+			oc := w.newVV(tr, lens, slack)
+			if oc.panicked != "" {
+				dead = true
 			}
-			logop("NewVV", 0, 0, lens, slack, oc, chunks)
 			if fd && oc.panicked == "" { // the dispatcher caps the views to what was read
 				o := len(w.objs)
 				n := r.Intn(tot + 2)
@@ -542,7 +660,7 @@ func random(out string, seed int64, segments, nops int) {
 		default:
 			newVV()
 		}
-		for step := 0; step < nops; step++ {
+		for step := 0; step < nops && !dead; step++ {
 			full := len(w.objs) >= maxObjs
 			if !full && r.Intn(14) == 0 {
 				if c := r.Intn(4); c == 0 {
@@ -633,11 +751,13 @@ func atoi(s string) int {
 func main() {
 	vh.Quiet()
 	if len(os.Args) < 2 {
-		vh.Fatal("usage: bufferd graph <script.json> | random <out.ndjson> <seed> <segments> <ops>")
+		vh.Fatal("usage: bufferd graph <script.json> | random <out.ndjson> <seed> <segments> <ops> | ops <steps.json> <out.ndjson>")
 	}
 	switch os.Args[1] {
 	case "graph":
 		graph(os.Args[2])
+	case "ops":
+		ops(os.Args[2], os.Args[3])
 	case "random":
 		random(os.Args[2], int64(atoi(os.Args[3])), atoi(os.Args[4]), atoi(os.Args[5]))
 	default:
